@@ -329,32 +329,29 @@ def run(tier):
             enc_key = peel(term_of_operand(bk, t.args[0]))
     if blk is None:
         raise CheckError('anchor: derive_session_key does not call encrypt_block')
-    script = buffer_script(bk, lambda t: t == blk)
-    got = []
-    for w in script:
-        if w.kind == 'byte':
-            got.append(('byte', off(w.start), term_str(peel(w.value))))
-        elif w.kind == 'range':
-            v = peel(w.value)
-            src = None
-            if is_call(v, 'as_wire_bytes'):
-                x = peel(v[2][0])
-                if is_call(x, 'join_nonce') and peel(x[2][0]) == ('param', sk):
-                    src = 'join_nonce'
-                elif is_call(x, 'net_id') and peel(x[2][0]) == ('param', sk):
-                    src = 'net_id'
-                elif x == ('param', param_by_name(bk.body, 'dev_nonce')):
-                    src = 'dev_nonce'
-            got.append(('range', off(w.start), off(w.end), src))
-        elif w.kind == 'call':
-            got.append(('call', (w.callee or '').split('::')[-1]))
-    want = [('byte', 0, 'arg%d' % param_by_name(bk.body, 'first_byte')), ('range', 1, 4, 'join_nonce'), ('range', 4, 7, 'net_id'), ('range', 7, 9, 'dev_nonce'), ('call', 'encrypt_block')]
-    res.require(got == want, 'C11:derive_session_key:layout', 'key block is not tag | JoinNonce[1..4] | NetID[4..7] | DevNonce[7..9] | zero pad, encrypted once: %s' % got, bk.body.path,
-                'SPEC-LAYOUT(session key block)', instance='session key = AES(tag | JoinNonce | NetID | DevNonce | 0-pad)')
-    # the block starts zeroed and is 16 bytes; the result is the encrypted block
-    init = [s for b in bk.body.blocks if not b.cleanup for s in b.stmts if s.k == 'assign' and s.rv.k == 'rep']
-    res.require(len(init) == 1 and str(init[0].rv.d.get('n')) in ('16', '16_usize') and term_of_operand(bk, init[0].rv.ops[0]) == ('const', 0), 'C11:derive_session_key:padding',
-                'the key block is not a zero-initialised 16-byte array', bk.body.path, 'SPEC-LAYOUT(pad)', instance='key block = [0u8; 16] before the fields are written')
+    # the 16 bytes handed to the AES primitive, read bit by bit where they are used (whatever fills the block: stores into a zeroed
+    # array, an array literal, a helper)
+    from .. import absint_interp, spi
+    an_k = absint_interp.new_analyzer(c.prog, max_depth=6)
+    rec_k = []
+
+    def hook_k(an_, t_, args_, frame_, st_, nm_):
+        rec_k.append([spi.fmt_byte(x_) for x_ in spi.slice_bits(an_, st_, args_[1], frame_)])
+    an_k.call_hooks['Crypto::encrypt_block'] = hook_k
+    an_k.analyze_entry(bk.body)
+    if not rec_k:
+        raise CheckError('anchor: derive_session_key does not reach Crypto::encrypt_block')
+
+    def byte_of(nm):
+        return '[' + ' '.join('%s.%d' % (nm, k_) for k_ in range(7, -1, -1)) + ']'
+    want_k = [byte_of('first_byte')] + [byte_of('self.bytes[%d]' % i_) for i_ in range(1, 7)] + [byte_of('dev_nonce.0[%d]' % i_) for i_ in range(2)] + ['0x00'] * 7
+    param_by_name(bk.body, 'first_byte'), param_by_name(bk.body, 'dev_nonce')
+    n_enc = len([1 for bb, t in bk.calls() if callee_name(t).endswith('encrypt_block')])
+    res.require(all(r_ == want_k for r_ in rec_k) and n_enc == 1, 'C11:derive_session_key:layout', 'key block is not tag | JoinNonce = frame[1..4] | NetID = frame[4..7] | DevNonce | zero pad, encrypted once: %s' % (
+        [r_ for r_ in rec_k if r_ != want_k][:1] or n_enc,), bk.body.path,
+        'SPEC-LAYOUT(session key block, bits at the AES call)', instance='session key = AES(tag | JoinNonce | NetID | DevNonce | 0-pad)')
+    res.require(all(r_[9:] == ['0x00'] * 7 and len(r_) == 16 for r_ in rec_k), 'C11:derive_session_key:padding',
+                'the key block is not 16 bytes ending in seven zero bytes', bk.body.path, 'SPEC-LAYOUT(pad)', instance='key block bytes 9..16 are zero')
     res.require(enc_key == ('param', param_by_name(bk.body, 'crypto')), 'C11:derive_session_key:key', 'the block is not encrypted with the supplied (AppKey) crypto', bk.body.path,
                 'PROVENANCE(key)', instance='key block encrypted with the crypto argument')
     for nm, tag in (('derive_nwkskey', 1), ('derive_appskey', 2)):
